@@ -9,6 +9,8 @@ package main
 //   rr plain|tunnel <hex of the request head>
 
 import (
+	"strconv"
+	"sync"
 	"bufio"
 	"context"
 	"crypto/tls"
@@ -52,6 +54,17 @@ func (s *rrState) start(base string) {
 	}
 	s.p = p
 	s.origin = httptest.NewServer(http.HandlerFunc(func(w http.ResponseWriter, r *http.Request) {
+		if strings.HasPrefix(r.URL.Path, "/oddstatus/") {
+			// a status line net/http's own server would never write: "HTTP/1.1 099 Odd", 000, 999 ...
+			if hj, ok := w.(http.Hijacker); ok {
+				if conn, buf, err := hj.Hijack(); err == nil {
+					fmt.Fprintf(buf, "HTTP/1.1 %s Odd\r\nContent-Length: 2\r\nCache-Control: max-age=60\r\n\r\nhi", strings.TrimPrefix(r.URL.Path, "/oddstatus/"))
+					buf.Flush()
+					conn.Close()
+				}
+			}
+			return
+		}
 		if strings.HasPrefix(r.URL.Path, "/trunc-") {
 			// an origin transfer that fails part-way: the announced length (or the last chunk) never arrives
 			hj, ok := w.(http.Hijacker)
@@ -152,6 +165,59 @@ func init() {
 				}()
 				if f[0] != "rr" {
 					die("rawreq: bad line %v", f)
+				}
+				if f[1] == "crowd" {
+					// k clients at the same moment, each asking the SAME origin for a DIFFERENT path and query: every one gets the
+					// answer to its own request (nothing of one exchange - not even the target URL - is shared with another)
+					k, _ := strconv.Atoi(f[2])
+					type res struct {
+						want, got string
+					}
+					out := make([]res, k)
+					var wg sync.WaitGroup
+					start := make(chan struct{})
+					for i := 0; i < k; i++ {
+						wg.Add(1)
+						go func(i int) {
+							defer wg.Done()
+							tgt := fmt.Sprintf("/crowd/%s/p%d?echo=%s-%d", f[3], i, f[3], i)
+							out[i].want = "t=" + tgt
+							<-start
+							conn, err := net.DialTimeout("tcp", s.proxyAddr, 3*time.Second)
+							if err != nil {
+								out[i].got = "dial-failed"
+								return
+							}
+							defer conn.Close()
+							conn.SetDeadline(time.Now().Add(6 * time.Second))
+							fmt.Fprintf(conn, "GET http://%s%s HTTP/1.1\r\nHost: %s\r\nConnection: close\r\n\r\n", s.ohost, tgt, s.ohost)
+							resp, err := http.ReadResponse(bufio.NewReader(conn), nil)
+							if err != nil {
+								out[i].got = "noresponse"
+								return
+							}
+							b, _ := io.ReadAll(resp.Body)
+							resp.Body.Close()
+							out[i].got = string(b)
+						}(i)
+					}
+					close(start)
+					wg.Wait()
+					wrong := 0
+					first := ""
+					for _, r := range out {
+						if r.got != r.want {
+							wrong++
+							if first == "" {
+								first = fmt.Sprintf("asked %q got %q", r.want, truncStr(r.got, 60))
+							}
+						}
+					}
+					o.Count("crowd")
+					if wrong == 0 {
+						return "all-own-answers"
+					}
+					return fmt.Sprintf("%d of %d clients got another answer: %s", wrong, k, first)
 				}
 				if f[1] == "target" {
 					// C08: the origin is asked for the path and query AS THE CLIENT WROTE THEM (dot segments, escapes, empty segments)
@@ -334,7 +400,8 @@ func init() {
 				n = c.n
 			}
 			methods := []string{"GET", "HEAD", "POST", "PUT", "DELETE", "OPTIONS", "PATCH", "TRACE", "CONNECT", "get", "G E T", "", "GET\x00", "BREW", strings.Repeat("M", 300)}
-			targets := []string{"http://@ORIGIN@/a", "http://@ORIGIN@/a?b=c", "/a", "/", "*", "@ORIGIN@", "http://@ORIGIN@", "http://@ORIGIN@/%zz", "http://@ORIGIN@/a b", "http://@ORIGIN@/" + strings.Repeat("p", 9000),
+			targets := []string{"http://@ORIGIN@/oddstatus/099", "http://@ORIGIN@/oddstatus/000", "http://@ORIGIN@/oddstatus/999", "http://@ORIGIN@/oddstatus/600", "/oddstatus/099", "http://@ORIGIN@/oddstatus/001",
+				"http://@ORIGIN@/a", "http://@ORIGIN@/a?b=c", "/a", "/", "*", "@ORIGIN@", "http://@ORIGIN@", "http://@ORIGIN@/%zz", "http://@ORIGIN@/a b", "http://@ORIGIN@/" + strings.Repeat("p", 9000),
 				"http://[::1", "http://@ORIGIN@:99999/", "//@ORIGIN@/x", "http:///nohost", "ftp://@ORIGIN@/a", "http://user:pw@@ORIGIN@/a", "http://@ORIGIN@/a#frag", "127.0.0.1:1", ":443", "[::1]:443", "[::1", "host:port:extra", "example.test:443", "", "\x7f"}
 			versions := []string{"HTTP/1.1", "HTTP/1.0", "HTTP/2.0", "HTTP/1.1 extra", "http/1.1", "", "HTTP/9.9"}
 			hosts := []string{"@ORIGIN@", "", "a b", "@ORIGIN@, other", strings.Repeat("h", 5000), "[::1]:80", "127.0.0.1:1", "\t", "ex\x00ample"}
@@ -354,7 +421,7 @@ func init() {
 						t = r.Pick(targets)
 					}
 					if r.Chance(50) {
-						t = r.Pick(targets[:4])
+						t = r.Pick(targets[:10])
 					}
 				}
 				h := "@ORIGIN@"
@@ -394,6 +461,9 @@ func init() {
 					// dot-segments rightly share an entry), so what comes back is what the origin was asked for
 					tp += "?" + r.Pick([]string{"x=1&", "a=/../b&", "p=%2F&", "", "a;b&"}) + fmt.Sprintf("echo=%d", i)
 					emit("rr", "target", hx(tp))
+				}
+				if i%30 == 17 {
+					emit("rr", "crowd", strconv.Itoa([]int{8, 24, 48}[r.Intn(3)]), strconv.Itoa(i))
 				}
 				if i%50 == 11 {
 					kp := [][2]int{{6, 300}, {40, 40}, {400, 3}, {1500, 0}}[r.Intn(4)]
